@@ -121,8 +121,13 @@ def oracle(ctx, only=None):
                                      min_quality=0.45 if 'tol' in opt else 0.0)
                     if np.count_nonzero(m.f2t[1] != -1) > 0:
                         break
+                parent = None
                 if mk == 'adaptive':
                     c03_oracle.check_sorted(m, desc, ctx.fail)
+                    c03_oracle.check_parent_untouched(ctx.fail)
+                    if c03_oracle.LAST_PARENT:
+                        parent = (c03_oracle.LAST_PARENT['mesh'], c03_oracle.LAST_PARENT['desc'])
+                        c03_oracle.check_sorted(parent[0], parent[1], ctx.fail)
                 try:
                     n, w = _quiet(c03_oracle.jumps, m, label, f, kind, rng, ctx.fail, desc, tol=opt.get('tol', c03_oracle.TOL))
                 except Exception as ex:  # noqa — exception of the implementation on a valid mesh: failing input
@@ -130,6 +135,17 @@ def oracle(ctx, only=None):
                     ctx.fail(c03_oracle.fail_key(label, 'exception'), f'{label} on {type(m).__name__} ({mk}): {type(ex).__name__}: {ex}',
                              dict(desc, element=label, traceback=traceback.format_exc()[-1500:]))
                     continue
+                if parent is not None and np.count_nonzero(parent[0].f2t[1] != -1) > 0:
+                    # the parent mesh is used again AFTER a mesh was derived from it
+                    try:
+                        n2, w2 = _quiet(c03_oracle.jumps, parent[0], label, f, kind, rng, ctx.fail, parent[1],
+                                        tol=opt.get('tol', c03_oracle.TOL))
+                        n += n2
+                        w = max(w, w2)
+                    except Exception as ex:  # noqa
+                        import traceback
+                        ctx.fail(c03_oracle.fail_key(label, 'exception'), f'{label} on the parent mesh after refinement: {type(ex).__name__}: {ex}',
+                                 dict(parent[1], element=label, traceback=traceback.format_exc()[-1500:]))
                 ctx.cov['evaluations'] += n
                 ctx.count(('jump', label, mk, desc['p'], desc['t']), nontrivial=np.count_nonzero(m.f2t[1] != -1) >= 2)
                 ctx.hist('mesh_kind', mk)
@@ -155,10 +171,10 @@ def run(ctx, only=None):
                         'the physical area-weighted normal of a mapped facet is |det| A^-T n (Nanson); not formalised',
                         'conformity claims per class (which trace must be continuous) are the hand-written table '
                         'vlib/c03_oracle.claims(); classes without a claim: ' + ', '.join(sorted(c03_oracle.NOT_CLAIMED)),
-                        'trace lemma not generated for: ' + '; '.join(f'{k}: {v}' for k, v in c03_gen.TRACE_SPECIAL.items())
-                        + '; ElementGlobal family, ElementLinePp/QuadP, ElementTriBDM1 (no symbolic polynomials), wedge (two facet kinds)']
+                        'effective-basis treatment for: ' + '; '.join(f'{k}: {v}' for k, v in c03_gen.TRACE_SPECIAL.items())
+                        + '; no trace lemma for the ElementGlobal family, ElementLinePp (1-d), wedge (two facet kinds)']
     ctx.cov['rule'] = ('oracle: every element with a continuity claim x {delaunay, structured, jiggled, curved second-order} meshes of its '
-                       'cell type, plus (simplices) library-produced meshes: refined(random marked cells) followed by random uniform refinement / translated / scaled / with_boundaries / further adaptive steps (these must again have sorted cells) x random vertex renumbering + cell permutation x random admissible local vertex order (any for '
+                       'cell type, plus (simplices) library-produced meshes: random with_subdomains / with_boundaries / with_defaults / translated / scaled, then refined(random marked cells) or refined(), followed by random uniform refinement / translated / scaled / with_boundaries / further adaptive steps (all of them, and the parent re-used after the derivation, must have sorted cells; p and t of the parent must be unchanged) x random vertex renumbering + cell permutation x random admissible local vertex order (any for '
                        'simplices, cyclic shifts for quadrilaterals, 24 rotations for hexahedra) through the default constructors x all '
                        'interior facets x 5-7 points per facet x a random coefficient vector; non-trivial = at least 2 interior facets; '
                        'distinct by mesh content')
